@@ -38,7 +38,7 @@ Theorem C02_order_kept : forall pid es es', remove_first_ret pid es = Some es' -
   exists a x b, es = a ++ x :: b /\ es' = a ++ b /\ re_pid x = pid.
 Proof. exact remove_first_ret_order. Qed.
 
-From Minimq Require Import Machine Run WireInv Wire Healthy Owed Replay.
+From Minimq Require Import Machine Run WireInv Wire PingQuiet Healthy Owed Replay.
 Open Scope N_scope.
 
 (* ---- the replay on the wire ---- *)
